@@ -76,6 +76,21 @@ Theorem C10_error_code_on_wire_partial : forall dispatch cfg r queued e, req_typ
   exists p, map snd (fst (server_step dispatch cfg r queued)) = [p] /\ wire_ret (reply_bytes p) = Some (err_code e).
 Proof. exact InvokeProofs.served_wire_error. Qed.
 
+(* complete decoding: every reply without payload (implementation / dispatcher errors, queue and handle timeouts,
+   pings) decodes from its bytes to itself - code and message included - in the ResponsePacket shape, and to itself
+   without code and message in the RequestPacket shape of a TUP-versioned reply *)
+Theorem C10_bodyless_reply_decodes : forall p, reply_typed p -> p_buf p = [] -> p_status p = [] -> p_ctx p = [] ->
+  4 + N.of_nat (length (reply_body p)) < 4294967296 -> N.of_nat (length (p_desc p)) < 4294967296 ->
+  decode_reply (reply_bytes p) = Some (is_tup p, if is_tup p then with_ret p 0 [] else p).
+Proof. exact InvokeProofs.bodyless_reply_decodes. Qed.
+Theorem C10_error_reply_on_wire : forall dispatch cfg r queued e, req_typed r -> codes_typed dispatch r ->
+  dispatched r queued = true -> h_res (dispatch r) = HFail e -> overruns dispatch cfg r queued = false -> oneway r = false ->
+  N.of_nat (length (err_msg e)) < 4294967296 ->
+  4 + N.of_nat (length (reply_body (with_ret (base_reply r) (err_code e) (err_msg e)))) < 4294967296 ->
+  exists p, map snd (fst (server_step dispatch cfg r queued)) = [p] /\ p_ret p = err_code e /\ p_desc p = err_msg e /\
+            decode_reply (reply_bytes p) = Some (is_tup p, if is_tup p then with_ret p 0 [] else p).
+Proof. exact InvokeProofs.served_error_on_wire. Qed.
+
 (* ---- success: code 0 and exactly what the dispatcher produced ---- *)
 Theorem C10_success : forall dispatch cfg r queued buf st cx, dispatched r queued = true -> h_res (dispatch r) = HDone buf st cx ->
   overruns dispatch cfg r queued = false -> oneway r = false ->
@@ -178,6 +193,8 @@ Print Assumptions C10_error_code_plain.
 Print Assumptions C10_error_code_on_wire_refuted.
 Print Assumptions C10_tup_reply_has_no_code.
 Print Assumptions C10_error_code_on_wire_partial.
+Print Assumptions C10_bodyless_reply_decodes.
+Print Assumptions C10_error_reply_on_wire.
 Print Assumptions C10_success.
 Print Assumptions C10_queue_timeout.
 Print Assumptions C10_no_spurious_queue_timeout.
